@@ -1,5 +1,6 @@
 import DesperProofs.Lemmas.WorldWalk
 import DesperProofs.Lemmas.WorldFrame
+import DesperProofs.Lemmas.WorldProcInv
 /-
   C06 — Type queries match exactly the subclasses, once each.
 
@@ -92,6 +93,41 @@ theorem C06_remove_one (U : Universe) [U.NoReenter] (hU : U.WF) (s : St) (e : En
         rw [row_of_ents hsame.ents, row_detach]
         simp
 
+/-- `remove_processor(t)` likewise detaches exactly one processor — of a type that is `t` or a
+subclass, of exactly type `t` when there is one — or none when nothing matches (state unchanged):
+its dictionary entry goes, every other entry stays, and the priority-sorted list loses the
+processors of exactly that type and nothing else (order of the rest unchanged). -/
+theorem C06_remove_processor_one (U : Universe) [U.NoReenter] (hU : U.WF) (s : St) (t : Ty) :
+    ((∀ st, Sub U st t → Dict.get? s.procs st = none) →
+        removeProcessor U s t = (s, .ok, none)) ∧
+    (∀ p, (removeProcessor U s t).2.2 = some p →
+        ∃ st, Sub U st t ∧ Dict.get? s.procs st = some p ∧
+          (∀ p', Dict.get? s.procs t = some p' → st = t) ∧
+          (∀ x, Dict.get? (removeProcessor U s t).1.procs x =
+                if st = x then none else Dict.get? s.procs x) ∧
+          (removeProcessor U s t).1.sorted = s.sorted.filter (fun q => tyOf U q ≠ st)) := by
+  rcases removeProcessor_spec U s t with ⟨_, heq⟩ | ⟨st, p, hf, hp, hret, hsame⟩
+  · refine ⟨fun _ => heq, ?_⟩
+    intro c hc; rw [heq] at hc; simp at hc
+  · refine ⟨?_, ?_⟩
+    · intro hnone
+      have hm := List.mem_of_find?_eq_some hf
+      have := hnone st ((mem_visit U hU t st).mp hm)
+      rw [this] at hp; simp at hp
+    · intro p' hp'
+      rw [hret] at hp'; simp at hp'; subst hp'
+      refine ⟨st, (mem_visit U hU t st).mp (List.mem_of_find?_eq_some hf), hp, ?_, ?_, ?_⟩
+      · intro p'' hp''
+        obtain ⟨rest, hr⟩ := visit_head U t
+        rw [hr, List.find?_cons] at hf
+        simp only [hp'', Option.isSome_some] at hf
+        simpa using hf.symm
+      · intro x
+        rw [hsame.procs]
+        show Dict.get? (Dict.erase s.procs st) x = _
+        rw [Dict.get?_erase]
+      · rw [hsame.sorted]; rfl
+
 /-! non-vacuity: a diamond D(B, C), B(A), C(A) -/
 private def exU : Universe :=
   { classes := [{ bases := [] }, { bases := [0] }, { bases := [0] }, { bases := [1, 2] }],
@@ -100,3 +136,12 @@ private def exU : Universe :=
 example : exU.WF ∧ visit exU 0 = [0, 2, 3, 1, 3] ∧ Sub exU 3 0 :=
   ⟨exU.wf_of_wfb (by decide), by decide,
    .step (b := 1) (by decide) (.step (b := 0) (by decide) (.refl 0))⟩
+
+/-- non-vacuity of `C06_remove_processor_one`: a processor of the diamond's bottom class `D` is
+found and removed by a query for the top class `A`; the sorted list and the dictionary lose it -/
+example :
+    let s : St := { procs := [(3, 7)], sorted := [7] }
+    (removeProcessor exU s 0).2.2 = some 7 ∧ (removeProcessor exU s 0).1.sorted = [] ∧
+    Dict.get? (removeProcessor exU s 0).1.procs 3 = none ∧
+    (removeProcessor exU s 1).2.2 = some 7 ∧ (removeProcessor exU { s with procs := [] } 0).2.2 = none := by
+  decide
